@@ -180,8 +180,30 @@ class ExprMixin:
     def ex_Starred(self, node):
         return self.eval(node.value)
 
+    def try_truth(self, v):
+        """truth of a value when it is known without forking, else None"""
+        v = self.resolve(v)
+        if isinstance(v, ConstV):
+            return bool(v.value)
+        if isinstance(v, IntV):
+            r = self.store.decide_eq0(v.lin)
+            return None if r is None else (not r)
+        if isinstance(v, SymV):
+            return self.binds.get(('truth', v.name))
+        if isinstance(v, (ObjV, FileV, FuncV, ClassV)):
+            return True
+        if isinstance(v, SeqV):
+            if not v.segs:
+                return False
+            if self.store.prove_ge0(v.length() - 1):
+                return True
+        return None
+
     def ex_IfExp(self, node):
         if self.nofork:
+            t = self.try_truth(self.eval(node.test))
+            if t is not None:
+                return self.eval(node.body if t else node.orelse)
             a = self.eval(node.body)
             b = self.eval(node.orelse)
             return self.join2(a, b)
@@ -456,9 +478,14 @@ class ExprMixin:
         """SymV x compared with y."""
         py = self.py_key(y) if not isinstance(y, SymV) else None
         is_none = isinstance(y, ConstV) and y.value is None
+        if x.kind == 'sentinel':
+            # object(): equal to itself only
+            return isinstance(y, SymV) and x.name == y.name
         if isinstance(y, SymV):
             if x.name == y.name:
                 return True
+            if y.kind == 'sentinel':
+                return False
             return self._fact_fork('eq', node, a=x, b=y)
         if py is None and not is_none:
             return self._fact_fork('eq', node, a=x, b=y)
@@ -722,6 +749,9 @@ class ExprMixin:
             if ga is not None and ga[0] == 'method':
                 self.event('getattr-proxy', node, obj=obj, attr=name)
                 return self.call_function(ga[1], [lit(name)], {}, self_obj=obj, node=node)
+            if [b for b in obj.cls.external_bases() if b not in ('object', 'builtins.object')] and \
+                    not self.is_exception_class(obj.cls):
+                return BoundExt(obj, name)       # method / attribute inherited from an external base class
             self.note_unknown(node, f'attribute {name} of {obj!r}')
             return UnkV(f'attr {name}')
         if isinstance(obj, ClassV):
